@@ -274,6 +274,29 @@ def eval_case(case):
         d = first_diff(a, outputs(r2))
         if d:
             viol.append(("deterministic", "C16:fresh_runs_differ:%s" % strat, d[:300]))
+        # a fresh load in another interpreter process (other string-hash seed: set / dict-of-set iteration orders differ)
+        import os
+        import subprocess
+        import sys
+        import tempfile
+        fh = tempfile.NamedTemporaryFile("w", suffix=".json", delete=False)
+        json.dump(full, fh)
+        fh.close()
+        try:
+            env = dict(os.environ, PYTHONHASHSEED=str(rng.randint(1, 4000000)), VERIF_REPO=str(engine.REPO))
+            p = subprocess.run([sys.executable, os.path.join(os.path.dirname(os.path.abspath(__file__)), "c16_sub.py"),
+                                fh.name], capture_output=True, text=True, env=env, timeout=180,
+                               cwd=os.path.dirname(os.path.abspath(__file__)))
+        finally:
+            os.unlink(fh.name)
+        if "@@OUT@@" not in p.stdout:
+            raise RuntimeError("c16_sub failed: %s" % (p.stderr[-800:],))
+        other = json.loads(p.stdout.split("@@OUT@@", 1)[1])
+        mine = json.loads(json.dumps(a, default=str))
+        d = first_diff(mine, other)
+        if d:
+            viol.append(("deterministic", "C16:runs_in_different_processes_differ:%s" % strat, d[:300]))
+        stats.append("other_process")
     elif var in ("rerun", "sequence"):
         import contextlib
         import io
@@ -310,6 +333,21 @@ def eval_case(case):
             viol.append(("definition_unchanged", "C16:scenario_definition_changed_by_run:%s" % who, dd[:300]))
     elif var == "shift":
         k = rng.randint(1, 5)
+        # prefer shifts after which a month ends inside the simulated time (calendar arithmetic on day numbers)
+        t0 = datetime.datetime.fromisoformat(full["scenario"]["scenario"]["start_time"])
+        span = datetime.timedelta(minutes=full["scenario"]["scenario"]["interval"]
+                                  * full["scenario"]["scenario"]["n_intervals"]) + datetime.timedelta(days=1)
+        ends = []
+        for kk in range(1, 13):
+            a0 = t0 + datetime.timedelta(days=7 * kk)
+            day = a0.date()
+            while day <= (a0 + span).date():
+                if (day + datetime.timedelta(days=1)).day == 1:
+                    ends.append(kk)
+                    break
+                day += datetime.timedelta(days=1)
+        if ends and rng.random() < 0.6:
+            k = rng.choice(ends)
         shifted = copy.deepcopy(full)
         shifted["scenario"] = shift_times(full["scenario"], datetime.timedelta(days=7 * k))
         r2 = scen.run_real(shifted, timeout_s=60)
